@@ -19,7 +19,7 @@ ASSUME = [
 
 # properties whose statement is an internal-consistency claim over "every reachable
 # index state": part of their runs sweeps fault-recovered states (sim/recovered.py)
-RECOVERED = {"C01": "out", "C04": "out", "C05": "out", "C07": "out", "C08": "out", "C10": "out", "C13": "out", "C20": "in"}
+RECOVERED = {"C01": "out", "C12": "out", "C04": "out", "C05": "out", "C07": "out", "C08": "out", "C10": "out", "C13": "out", "C20": "in"}
 
 
 def seq_spec(prop, sweep, quick, thorough, rule, after_op=None, tier_kw=None, pre_op=None, **kw):
@@ -103,6 +103,8 @@ def _gen_C14(rng, tier, seed):
     c["config"]["sweep_every"] = rng.choice([0, 0, 4, 8])
     if c["config"]["backend"] == "mem":
         c["ops"] = [o for o in c["ops"] if o["op"] != "reopen"]
+    elif rng.random() < 0.15:
+        c["reopen_with_fewer_rules"] = rng.choice([1, 1, 2])
     elif rng.random() < 0.3:
         # queries on the state a process finds after a dirty stop
         c["ops"] = [o for o in c["ops"] if o["op"] != "reopen"][:12]
@@ -115,7 +117,7 @@ register(
         "C14",
         _gen_C14,
         QQ.run_C14,
-        4000,
+        3000,
         100000,
         "exploration",
         "seeded states (file back-end on SimDisk, memory back-end, or - 30% of file runs - the states a process finds after a crash cut of the write log) x every read-only entry point (~45 methods, present / absent / unknown arguments, valid and stale tokens, generators abandoned half-way); non-trivial when the state holds pages and webentities; distinct = distinct event digests",
@@ -187,7 +189,7 @@ register(
         "C16",
         S.gen_C16,
         S.run_C16,
-        3500,
+        2500,
         100000,
         "exploration",
         "2-3 generator requests (crawl-batch indexing, rule installation, webentity page query, network query, one-step writers) on a seeded pre-populated index, advanced by a seeded scheduler (5 policies) with every loop iteration a yield point; raw-store snapshot after every scheduler step; non-trivial when >= 1 context switch happened with a writer among >= 2 tasks; distinct = distinct event digests (schedule + write log); distinct_schedules also reported",
